@@ -191,6 +191,26 @@ class Index:
                     j += 1
                 i = match_close(toks, j) + 1
                 continue
+            if t.k == "id" and t.s == "const" and i + 2 < hi and toks[i + 1].k == "id" and toks[i + 2].s == ":":
+                # associated / module const: `const NAME: T = init;`
+                j = i + 1
+                depth = 0
+                while j < hi:
+                    sj = toks[j].s
+                    if toks[j].k == "p":
+                        if sj in OPEN:
+                            depth += 1
+                        elif sj in CLOSE:
+                            depth -= 1
+                        elif sj == ";" and depth == 0:
+                            break
+                    j += 1
+                start = i
+                while start > lo and (toks[start - 1].s == "pub" or (toks[start - 1].s == ")" and self._is_pub_paren(start - 1))):
+                    start = start - 1 if toks[start - 1].s == "pub" else self._open_of(start - 1) - 1
+                parent.children.append(Item("const", join(toks[i:i + 2]), toks[i + 1].s, start, -1, j, parent))
+                i = j + 1
+                continue
             if t.k == "id" and t.s in ("mod", "impl", "trait", "fn", "struct", "enum", "union"):
                 # an `unsafe impl` / `pub(crate) fn` prefix belongs to the item; find it backwards
                 start = i
@@ -257,6 +277,8 @@ class Index:
     def containers(self, anchor):
         want = norm(anchor)
         out = []
+        if want == "crate":
+            return [self.root]
 
         def walk(it):
             for c in it.children:
@@ -474,6 +496,7 @@ class FnSpec:
         self.decreases = None
         self.quals = None
         self.sig_only = False
+        self.assume = False
         self.selfty = None
         self.extra = {}
 
@@ -501,6 +524,8 @@ def parse_fn_directive(lines, defaults):
                 fs.extra[k] = v
         elif o == "sig":
             fs.sig_only = True
+        elif o == "assume":
+            fs.assume = True
         elif o == "nopub":
             fs.quals = ""
     fs.props = defaults.get("props")
@@ -594,6 +619,12 @@ def render_fn(idx, fs, table, ctx):
                       "sha256_orig": sha(orig), "rules": sorted(rules.fired), "props": fs.props,
                       "src_line": idx.line_of(it.t0)})
         return sig_txt + contract + ";\n"
+    if fs.assume:
+        # callee contract assumed in this unit (it is proved in the unit that owns the function)
+        table.append({"item": "%s::%s" % (fs.anchor, fs.newname or fs.name), "assumed": True, "sig_only": True,
+                      "sha256_orig": sha(orig), "rules": sorted(rules.fired), "props": fs.props,
+                      "src_line": idx.line_of(it.t0)})
+        return "#[verifier::external_body]\n" + sig_txt + contract + "\n{ unimplemented!() }\n"
     body = toks[it.tb + 1:it.t1]
     # loop invariants and anchored hints are inserted by token position
     inserts = {}
@@ -657,6 +688,10 @@ def render_fn(idx, fs, table, ctx):
                   "anchored_hints": len(fs.after), "loops": len(fs.loops),
                   "fn_name": fs.newname or fs.name})
     return text
+
+
+def ctx_opts(ctx):
+    return {"frac_consts": ctx.get("frac_consts", False), "rename_int": True}
 
 
 def subst(text, env):
@@ -745,7 +780,7 @@ def render_unit(idx, tmpl_path, root, must_fail=False):
                 j += 1
             block[0] = block[0].strip()
             fs = parse_fn_directive(block, defaults)
-            if must_fail and not fs.sig_only:
+            if must_fail and not fs.sig_only and not fs.assume:
                 fs.ensures = list(fs.ensures) + ["false"]
             txt = render_fn(idx, fs, table, ctx)
             first = len(out) + 1
@@ -768,12 +803,74 @@ def render_unit(idx, tmpl_path, root, must_fail=False):
             i += 1
             continue
         if s.startswith("//@item "):
-            m = re.match(r"//@item\s+(.*?)\s*::\s*(struct|trait|enum|fn)\s+(\w+)", s)
+            m = re.match(r"//@item\s+(.*?)\s*::\s*(struct|trait|enum|fn|const)\s+(\w+)", s)
             it = idx.find_item(m.group(1), m.group(2), m.group(3))
             rules = Rules()
-            txt = emit(rewrite_tokens(idx.toks[it.t0:it.t1 + 1], rules, {}))
-            out.extend(txt.split("\n"))
+            strs = rewrite_tokens(idx.toks[it.t0:it.t1 + 1], rules, {})
+            if m.group(2) == "struct":
+                # R5: fields become pub
+                res = []
+                depth = 0
+                for k2, x in enumerate(strs):
+                    res.append(x)
+                    if x == "{":
+                        depth += 1
+                    elif x == "}":
+                        depth -= 1
+                    if depth == 1 and x in ("{", ",") and k2 + 1 < len(strs) and strs[k2 + 1] not in ("pub", "}"):
+                        res.append("pub")
+                strs = res
+            out.extend(emit(strs).split("\n"))
             i += 1
+            continue
+        if s.startswith("//@const "):
+            # R4: an associated const that depends on Frac becomes a zero-argument fn with the same initialiser
+            j = i
+            block = []
+            while not lines[j].strip().startswith("//@end"):
+                st = lines[j].strip()
+                block.append(st[3:] if st.startswith("//@") else lines[j])
+                j += 1
+            m = re.match(r"const\s+(.*?)\s*::\s*(\w+)\s*(.*)$", block[0].strip())
+            anchor, cname, copts = m.group(1), m.group(2), m.group(3)
+            it = idx.find_item(anchor, "const", cname)
+            toks = idx.toks
+            k2 = it.t0
+            while toks[k2].s != "const":
+                k2 += 1
+            # const NAME : TYPE = INIT ;
+            eqi = k2 + 3
+            depth = 0
+            while not (toks[eqi].s == "=" and depth == 0):
+                if toks[eqi].s in ("<", "("):
+                    depth += 1
+                elif toks[eqi].s in (">", ")"):
+                    depth -= 1
+                eqi += 1
+            rules = Rules()
+            rules.fired.add("R4")
+            ty = " ".join(rewrite_tokens(toks[k2 + 3:eqi], rules, ctx_opts(ctx)))
+            init = emit(rewrite_tokens(toks[eqi + 1:it.t1], rules, dict(ctx_opts(ctx), in_body=True)))
+            fs = parse_fn_directive(["fn %s :: %s" % (anchor, cname)] + block[1:], defaults)
+            if must_fail and "assume" not in copts:
+                fs.ensures = list(fs.ensures) + ["false"]
+            contract = ""
+            if fs.ensures:
+                contract = "\n    ensures " + ",\n        ".join(fs.ensures) + ","
+            first = len(out) + 1
+            item_name = "%s::const %s" % (anchor, cname)
+            if "assume" in copts:
+                out.extend(("#[verifier::external_body]\npub fn %s() -> (r: %s)%s\n{ unimplemented!() }" % (cname, ty, contract)).split("\n"))
+                table.append({"item": item_name, "assumed": True, "sig_only": True, "sha256_orig": sha(idx.src(it.t0, it.t1)),
+                              "rules": sorted(rules.fired), "props": fs.props, "src_line": idx.line_of(it.t0)})
+            else:
+                out.extend(("pub fn %s() -> (r: %s)%s\n{\n%s\n// ---- verbatim initialiser from expanded.rs:%d ----\n%s\n}" % (
+                    cname, ty, contract, fs.head.strip(), idx.line_of(it.t0), init)).split("\n"))
+                table.append({"item": item_name, "sha256_orig": sha(idx.src(it.t0, it.t1)), "sha256_rewritten": sha(init),
+                              "rules": sorted(rules.fired), "props": fs.props, "src_line": idx.line_of(it.t0),
+                              "n_requires": 0, "n_ensures": len(fs.ensures), "fn_name": cname})
+            linemap.append((first, len(out), item_name))
+            i = j + 1
             continue
         out.append(ln)
         i += 1
